@@ -103,6 +103,10 @@ def run(ctx, chk):
         # conversions collect the source's symbols: iter() rows (C11) and one push per item (C06)
         core.import_rows(chk, cfg, "C11", "props.C11", ("G02", "G05c/into_iter", "S-glue"))
         core.import_rows(chk, cfg, "C06", "props.C06", ("S-extend", "R08"))
+    import core as _core
+    for cfg in ctx.configs():
+        chk.cfg = cfg.name
+        _core.import_codec_core(chk, cfg)      # the symbols' own tables (C05)
     chk.floor("sequence conversions", nconv, 3 * len(chk.configs))
 
 
